@@ -27,6 +27,7 @@ func ruleC18(prog *Program, rep *Report) {
 	ruleKindParity(prog, rep)
 	ruleTwins(prog, rep)
 	ruleCursorAdvance(prog, rep)                                    // two objects of one document must not be the same recycled map
+	ruleArgParity(prog, rep, "oj.Parser", "gen.Parser")             // Reuse with channel delivery hands out the same map for every document
 	ruleArmTwins(prog, rep, jsonFrontEnds[0], jsonFrontEnds[3], 30) // gen.Parser is oj.Parser with gen nodes
 	rep.Rules = append(rep.Rules, "A-events: gen.Parser and oj.Parser emit the same value events as the reference at every byte and never append to a consumed scratch buffer (see C03/C07): the structural part of 'gen.Parser output equals Generify of oj.Parser output'")
 	results := exploreFrontEnds(prog, []feSpec{jsonFrontEnds[0], jsonFrontEnds[3]}, []bool{false}, false)
